@@ -309,7 +309,8 @@ def write_blob(val: bytes) -> bytes:
     """
     if not val:
         raise OscTypeBuildError('Blob value cannot be empty')
-    dgram = write_int(len(val))
+    # Size in bytes, len() of a memoryview is its number of items.
+    dgram = write_int(memoryview(val).nbytes)
     dgram += val
     while len(dgram) % _BLOB_DGRAM_PAD != 0:
         dgram += b'\x00'
